@@ -127,7 +127,10 @@ pub fn check_all(h: &History, level: u8, obs: &mut Obs) -> Vec<(Violation, Fault
         }
     };
     // (i) every write call x ErrorKind
-    let kinds: Vec<usize> = if level == 0 { vec![0, 1, 3, 6, 17] } else { (0..KINDS.len()).collect() };
+    // under Miri (VH_SMALL) one faulted run costs about a second: a thin but complete slice
+    // (every write call, ~40 byte offsets incl. all buffer boundaries of the first writes)
+    let small = std::env::var("VH_SMALL").is_ok();
+    let kinds: Vec<usize> = if small { vec![0, 6] } else if level == 0 { vec![0, 1, 3, 6, 17] } else { (0..KINDS.len()).collect() };
     for k in 0..r.writes {
         for &kind in &kinds {
             let f = Fault::FailWrite { k, kind };
@@ -140,7 +143,14 @@ pub fn check_all(h: &History, level: u8, obs: &mut Obs) -> Vec<(Violation, Fault
     let n = r.bytes.len() as u64;
     let limit = if level == 0 { 4096 } else { 16_384 };
     let mut offsets: Vec<u64> = Vec::new();
-    if n <= limit {
+    if small {
+        for &(at, len) in r.write_spans.iter().take(6) {
+            offsets.extend([at, at + 1, at + len as u64].into_iter().filter(|&o| o <= n));
+        }
+        offsets.extend((0..=n).step_by((n / 24).max(1) as usize));
+        offsets.sort();
+        offsets.dedup();
+    } else if n <= limit {
         offsets.extend(0..=n);
         obs.count("histories_with_every_byte_offset", 1);
     } else {
@@ -173,15 +183,17 @@ pub fn check_all(h: &History, level: u8, obs: &mut Obs) -> Vec<(Violation, Fault
         obs.count("fault_points:ok-zero", 1);
     }
     // (iv) random short-write / Interrupted schedules, never fatal
-    let scheds = if level == 0 { 40 } else { 400 };
+    let scheds = if small { 4 } else if level == 0 { 40 } else { 400 };
     for s in 0..scheds {
         let f = Fault::Schedule { seed: crate::util::mix(h.hash(), s), max_chunk: [1usize, 2, 7, 64, 4096][s as usize % 5], interrupt_pct: [0u8, 10, 40][s as usize % 3] };
         let vs = check_one(h, &f, &r, obs);
         push(vs, &f, &mut out);
         obs.count("fault_points:schedules", 1);
     }
-    let f = Fault::OneByte;
-    let vs = check_one(h, &f, &r, obs);
-    push(vs, &f, &mut out);
+    if !small {
+        let f = Fault::OneByte;
+        let vs = check_one(h, &f, &r, obs);
+        push(vs, &f, &mut out);
+    }
     out
 }
